@@ -122,6 +122,11 @@ theorem step_files (env : Env) (fs fs' : FS) (c : Call) (r : Ret) (h : Prog.Step
   cases h with
   | fail e short =>
     cases c <;> simp only [execFail, exec] at hq <;> (try exact Or.inl hq)
+    case removeTree p =>
+      split at hq <;> (try exact Or.inl hq)
+      rcases FS.delAll_get fs _ q with h | h
+      · rw [h] at hq; cases hq
+      · left; rw [← h]; exact hq
     all_goals (split at hq <;> (try exact Or.inl hq))
     all_goals (
       rcases key _ _ _ hq with h | h
@@ -403,6 +408,12 @@ theorem step_frame (env : Env) (fs fs' : FS) (c : Call) (r : Ret) (h : Step env 
   cases h with
   | fail e short =>
     cases c <;> simp only [execFail, exec] <;> (try rfl)
+    case removeTree p =>
+      simp only [Call.touches] at hq
+      split <;> (try rfl)
+      apply FS.delAll_frame
+      intro m
+      exact hq (FS.below_prefix fs p q (List.mem_filter.mp (mem_maskSel m)).1)
     all_goals (split <;> (try rfl))
     all_goals (simp only [Call.touches] at hq; exact FS.get_put_ne _ _ hq)
   | ok =>
